@@ -2,7 +2,7 @@ use crate::{
     stat::{BucketWrap, LeapArray, MetricTrait},
     Result,
 };
-use std::sync::{
+use crate::vsync::{
     atomic::{AtomicU64, Ordering},
     Arc,
 };
